@@ -496,7 +496,8 @@ class LRUCache:
 
     def __contains__(self, key: t.Any) -> bool:
         """Check if a key exists in this cache."""
-        return key in self._mapping
+        with self._wlock:
+            return key in self._mapping
 
     def __len__(self) -> int:
         """Return the current size of the cache."""
